@@ -936,8 +936,9 @@ structure HypsOn (o : BuildOpts) (ps : List Policy) (req : Request) : Prop where
 
 theorem clause2_fields (tcp : Bool) (p : Policy) :
     (clause2 tcp p).action = p.action ∧ (clause2 tcp p).dryRun = p.dryRun ∧ (clause2 tcp p).ns = p.ns ∧
-    (clause2 tcp p).provider = p.provider ∧ (clause2 tcp p).selector = p.selector := by
-  unfold clause2; split <;> exact ⟨rfl, rfl, rfl, rfl, rfl⟩
+    (clause2 tcp p).provider = p.provider ∧ (clause2 tcp p).selector = p.selector ∧
+    (clause2 tcp p).targetRefs = p.targetRefs := by
+  unfold clause2; split <;> exact ⟨rfl, rfl, rfl, rfl, rfl, rfl⟩
 
 theorem enforced_clause2 (a : Action) (tcp : Bool) (ps : List Policy) :
     enforced a (ps.map (clause2 tcp)) = (enforced a ps).map (clause2 tcp) := by
@@ -1030,7 +1031,8 @@ theorem filter_applies_clause2 (w : Workload) (tcp : Bool) (ps : List Policy) :
   congr 1
   apply List.filter_congr
   intro p _
-  simp only [Function.comp, applies, (clause2_fields tcp p).2.2.1, (clause2_fields tcp p).2.2.2.2]
+  simp only [Function.comp, applies, (clause2_fields tcp p).2.2.1, (clause2_fields tcp p).2.2.2.2.1,
+    (clause2_fields tcp p).2.2.2.2.2]
 
 /-- **The property, whole chain**: CUSTOM filters then AUDIT, DENY, ALLOW decide every request exactly
     as the statement says, on HTTP and TCP chains, for translatable and untranslatable rules alike. -/
